@@ -79,7 +79,18 @@ def job(j):
         except Exception as e:
             return {'read_exc': exc_name(e), 'info': exc_info(e)}
         out = []
-        for smi in j['smiles']:
+        smiles = list(j['smiles'])
+        if j.get('respell') is not None:
+            # the same species again under another atom numbering, matched with the SAME query object
+            import random
+            rng = random.Random(j['respell'])
+            for smi in j['smiles'][:3]:
+                m0 = Chem.MolFromSmiles(smi)
+                if m0 is not None and m0.GetNumAtoms() > 1:
+                    perm = list(range(m0.GetNumAtoms()))
+                    rng.shuffle(perm)
+                    smiles.append(Chem.MolToSmiles(Chem.RenumberAtoms(m0, perm), canonical=False))
+        for smi in smiles:
             mol = Chem.MolFromSmiles(smi)
             if mol is None:
                 out.append({'bad_smiles': True})
@@ -94,7 +105,7 @@ def job(j):
             if j.get('graphs'):
                 r['graph'] = graph_of(mol)
             out.append(r)
-        return {'results': out}
+        return {'results': out, 'smiles': smiles}
     if op == 'run_rule':
         try:
             q = Read(j['text'])
